@@ -2377,6 +2377,46 @@ def r_json_sib(E):
     if not rds or any(not isinstance(rd, ast.Constant) or not isinstance(rd.value, int) or rd.value < 3 for rd in rds):
         res.findings.append(Finding("R-JSON-SIB", "hourly rounding depth", "hourly values are no longer written with (at "
                                     "least) the documented 3 decimals by default", rel, hq.lineno, hq.name))
+    # a date written under a key with strftime(F) is read back from that key with strptime(…, F): same format string (a
+    # named constant is read through its definition)
+    def _const_str(e, tree_):
+        if isinstance(e, ast.Constant) and isinstance(e.value, str):
+            return e.value
+        if isinstance(e, ast.Name):
+            for st_ in tree_.body:
+                if isinstance(st_, ast.Assign) and len(st_.targets) == 1 and isinstance(st_.targets[0], ast.Name) \
+                        and st_.targets[0].id == e.id and isinstance(st_.value, ast.Constant) and isinstance(st_.value.value, str):
+                    return st_.value.value
+        return None
+    written, read = {}, {}
+    for mod_, (rel_, tree_, _s) in sorted(pm.modules.items()):
+        for d_ in [n for n in ast.walk(tree_) if isinstance(n, ast.Dict)]:
+            for k_, v_ in zip(d_.keys, d_.values):
+                if isinstance(k_, ast.Constant) and isinstance(k_.value, str):
+                    for c_ in [x for x in ast.walk(v_) if isinstance(x, ast.Call) and isinstance(x.func, ast.Attribute)
+                               and x.func.attr == "strftime" and x.args]:
+                        written.setdefault(k_.value, []).append((rel_, c_, _const_str(c_.args[0], tree_)))
+        for c_ in [x for x in ast.walk(tree_) if isinstance(x, ast.Call) and isinstance(x.func, ast.Attribute)
+                   and x.func.attr == "strptime" and len(x.args) == 2]:
+            from ..astutil import fully_expanded as _fx_df
+            host_ = c_
+            while host_ is not None and not isinstance(host_, ast.FunctionDef):
+                host_ = getattr(host_, "_parent", None)
+            src_ = _fx_df(c_.args[0], host_) if host_ is not None else c_.args[0]
+            keys_ = [x.slice.value for x in ast.walk(src_) if isinstance(x, ast.Subscript) and isinstance(x.slice, ast.Constant)
+                     and isinstance(x.slice.value, str)]
+            for k_ in keys_:
+                read.setdefault(k_, []).append((rel_, c_, _const_str(c_.args[1], tree_)))
+    for k_ in sorted(set(written) & set(read)):
+        res.instances += 1
+        for (rw, cw, fw) in written[k_]:
+            for (rr, cr, fr) in read[k_]:
+                if fw is not None and fr is not None and fw != fr:
+                    res.findings.append(Finding(
+                        "R-JSON-SIB", f"date format of '{k_}'",
+                        f"the writer emits '{k_}' with strftime('{fw}') and the reader parses it with strptime(…, '{fr}'): a "
+                        f"date whose day and month differ is read back as another date (5 March as 3 May), or refused when the "
+                        f"day is above 12", rr, cr.lineno, "strptime"))
     res.samples = [{"class": cn, "first_positional_parameter": p} for cn, p in sorted(first.items())]
     res.floor = 6
     return res
